@@ -105,6 +105,23 @@ class C01(Prop):
             case = {"k": "codec", "bulk": rng.random() < 0.3, "events": [[None, t, d, "{}"]], "off": 0}
             for be in storelib.BACKENDS:
                 out.append(("codec-2^51", {**case, "backend": be}))
+        # ids stay unique (and listing / lookup stay right) when inserts are interleaved with deletions
+        for _ in range(ctx.pick(120, 2000)):
+            g = storegen.HistGen(rng, nbuckets=2, grid=5)
+            g.start()
+            for _ in range(rng.randint(4, 25)):
+                b = rng.choice(g.buckets)
+                r = rng.random()
+                if r < 0.5:
+                    g.op_insert(b)
+                elif r < 0.62:
+                    g.op_bulk(b)
+                elif r < 0.87:
+                    g.op_delete(b)
+                else:
+                    g.op_read(b)
+            for be in storelib.BACKENDS:
+                out.append(("ids-history", {"k": "hist", "backend": be, "ops": g.ops}))
         for _ in range(ctx.pick(150, 3000)):
             tr = self._trace(rng)
             for be in storelib.BACKENDS:
@@ -152,6 +169,10 @@ class C01(Prop):
 
     # ---- real code ---------------------------------------------------------------------------------
     def impl(self, case):
+        if case["k"] == "hist":
+            r = storelib.Runner(case["backend"]).run(case["ops"])
+            r["outs"] = [storelib.norm_err(case["backend"], o) for o in r["outs"]]
+            return r
         store = storelib.Store(case["backend"])
         try:
             if case["k"] == "codec":
@@ -303,6 +324,8 @@ class C01(Prop):
     FALLBACK = [None, T0, 0, "{}"]
 
     def model_lines(self, case, io=None):
+        if case["k"] == "hist":
+            return storelib.model_lines(case["backend"], io["resolved"])[0]
         if case["k"] == "own":
             return self._own_lines(case, io) if case["backend"] == "memory" else []
         pre = f"store {case['backend']} "
@@ -362,7 +385,7 @@ class C01(Prop):
                 if cell is None:
                     L.append(f"heap mutmeta {op[1]} data -")
                 elif op[2] in ("name", "type"):
-                    L.append(f"heap mutmeta {op[1]} scalars " + " ".join([p_opt(cell[0], hx)] + [hx(x) for x in cell[1:5]]))
+                    L.append(f"heap mutmeta {op[1]} scalars " + " ".join([p_opt(cell[0], hx)] + [hx(storelib.created_iso(x) if isinstance(x, int) else x) for x in cell[1:5]]))
                 else:
                     L.append(f"heap mutmeta {op[1]} data {hx(cell[5])}")
             elif k == "mutcreate":
@@ -379,6 +402,9 @@ class C01(Prop):
         return L
 
     def model_out(self, case, answers, io=None):
+        if case["k"] == "hist":
+            _, idx = storelib.model_lines(case["backend"], io["resolved"])
+            return storelib.model_out(case["backend"], io["resolved"], answers, idx)
         if case["k"] == "own":
             return self._own_out(case, answers) if case["backend"] == "memory" else None
         ids = []
@@ -413,6 +439,8 @@ class C01(Prop):
                 "all_held": answer(tail[3]).tok() == "1"}
 
     def same(self, case, io, mo):
+        if case["k"] == "hist":
+            return storelib.same_history(case["backend"], io, mo)
         if case["k"] == "own":
             if case["backend"] != "memory":
                 return True  # rows hold values, not references: no heap model (see Props/C01.lean)
@@ -431,6 +459,11 @@ class C01(Prop):
     def oracle(self, case, out):
         if out is None:
             return None
+        if case["k"] == "hist":
+            if "resolved" not in out:
+                return None
+            # unique ids, listing and lookup-by-id: the reference list model of C02 restricted to inserts/deletes
+            return storegen.RefModel().check(out["resolved"], out["outs"], out["dumps"])
         if case["k"] == "codec":
             want = sorted([e[1], e[2], canon(e[3])] for e in case["events"])
             ids = [e[0] for e in out["listed"]]
@@ -452,12 +485,16 @@ class C01(Prop):
         return None
 
     def nontrivial(self, case, out):
+        if case["k"] == "hist":
+            return any(o[0] == "delete" for o in case["ops"])
         if case["k"] == "codec":
             return any(e[2] % 1000 for e in case["events"])
         ks = [o[0] for o in case["trace"]]
         return any(k.startswith("mut") for k in ks)
 
     def features(self, case, out):
+        if case["k"] == "hist":
+            return [f"{case['backend']}:hist:{o[0]}" for o in case["ops"]]
         if case["k"] == "codec":
             fs = []
             for e in case["events"]:
@@ -467,6 +504,10 @@ class C01(Prop):
         return [f"{case['backend']}:own:{o[0]}" + (":" + str(o[2]) if o[0] in ("mut", "mutmeta") else "") for o in case["trace"]]
 
     def shrink(self, case):
+        if case["k"] == "hist":
+            for ops in storegen.shrink_history(case["ops"]):
+                yield {**case, "ops": ops}
+            return
         if case["k"] == "codec":
             evs = case["events"]
             for i in range(len(evs)):
